@@ -7,6 +7,7 @@ import (
 	"bufio"
 	"fmt"
 	"io"
+	"os"
 	"os/exec"
 	"strconv"
 	"strings"
@@ -61,7 +62,14 @@ func (s *Solver) start(args []string) error {
 		return err
 	}
 	s.inRaw = w
-	s.in = bufio.NewWriterSize(w, 1<<16)
+	var sink io.Writer = w
+	if tp := os.Getenv("XSYM_TRACE"); tp != "" {
+		f, err := os.OpenFile(fmt.Sprintf("%s.%d", tp, s.cmd.Process.Pid), os.O_CREATE|os.O_WRONLY|os.O_TRUNC, 0o644)
+		if err == nil {
+			sink = io.MultiWriter(w, f)
+		}
+	}
+	s.in = bufio.NewWriterSize(sink, 1<<16)
 	s.out = bufio.NewReaderSize(r, 1<<16)
 	s.defined = map[int32]bool{}
 	s.nDef = 0
@@ -193,6 +201,9 @@ func (s *Solver) Check(cs []*Term, vars []*Term) (Result, Model) {
 		}
 	}
 	fmt.Fprintln(s.in, "(pop 1)")
+	if d := time.Since(t0); d > 300*time.Millisecond {
+		fmt.Fprintf(s.in, "; SLOW %v %v\n", d, res)
+	}
 	s.in.Flush()
 	switch res {
 	case RSat:
